@@ -10,6 +10,7 @@ Lemma pickler_spec : get_exception_uses_the_pools_pickler = true. Proof. vm_comp
 Lemma populate_spec : populate_rebuilds_args_and_state = true. Proof. vm_compute. reflexivity. Qed.
 Lemma started_spec : started_sets_now = true. Proof. vm_compute. reflexivity. Qed.
 Lemma completed_spec : completed_sets_zero = true. Proof. vm_compute. reflexivity. Qed.
+Lemma phases_spec : init_exit_phases_bracketed = true. Proof. vm_compute. reflexivity. Qed.
 Lemma finally_spec : run_func_clears_in_finally = true. Proof. vm_compute. reflexivity. Qed.
 
 (* C04: what the caller rebuilds is the raised exception (class, args, attributes) when the pool's
